@@ -166,6 +166,11 @@ func (g *genState) keyToken(paste bool) (string, string) {
 		l := rune('a' + g.r.Intn(26))
 		return "\x1b" + string(l), keyText(l, 0, 2, 0, "")
 	case 0: // legacy character
+		if g.r.Intn(8) == 0 {
+			// a well-formed U+FFFD (what a badly transcoded document
+			// contains): one character, not three invalid bytes
+			return "\ufffd", keyText(0xFFFD, 0, 0, typ, "\ufffd")
+		}
 		return string(c), keyText(c, 0, 0, typ, string(c))
 	case 1: // kitty with modifiers
 		mods := g.r.Intn(64)
